@@ -13,7 +13,7 @@ type Coin interface{ Intn(n int) int }
 type Style struct {
 	NL            string // "\n" (default), "\r\n", "\r"
 	Indent        string // default two spaces; "-" means no indentation
-	MultiLine     int    // 0 inline `// {…}`; 1 `/* {…} */` on one line; 2 `/* {` … `} */` over several lines
+	MultiLine     int    // 0 inline `// {…}`; 1 `/* {…} */` on one line; 2 `/* {` … `} */` over several lines; 3 the same with the note / `*/` on a line of its own
 	QuoteNames    bool   // rule names in quotes
 	TrailingComma bool   // trailing comma inside the rule object
 	Comments      bool   // user comments (# … and ### … ###) at legal places
@@ -189,10 +189,14 @@ func (r *renderer) annotation(n *Node, level int) {
 	if len(n.Rules) > 0 {
 		sep := ", "
 		open, close := "{", "}"
-		if ml == 2 {
+		if ml >= 2 {
 			sep = "," + r.nl + strings.Repeat(r.ind, level+2)
 			open = "{" + r.nl + strings.Repeat(r.ind, level+2)
 			close = r.nl + strings.Repeat(r.ind, level+1) + "}"
+		}
+		if ml == 3 {
+			// the note or the end marker starts on its own line
+			close += r.nl + strings.Repeat(r.ind, level+1)
 		}
 		r.sb.WriteString(open)
 		for i, rule := range n.Rules {
@@ -205,6 +209,25 @@ func (r *renderer) annotation(n *Node, level int) {
 				r.sb.WriteString(rule.Name)
 			}
 			r.sb.WriteString(":" + sp)
+			rule.NotesWritten = false
+			if ml >= 2 && rule.Name == "enum" && rule.Raw == "" && len(rule.ItemNotes) == len(rule.List) && len(rule.List) > 0 {
+				// one value per line, each followed by its note
+				rule.NotesWritten = true
+				in := strings.Repeat(r.ind, level+3)
+				r.sb.WriteString("[" + r.nl)
+				for j, lit := range rule.List {
+					r.sb.WriteString(in + lit)
+					if j < len(rule.List)-1 {
+						r.sb.WriteString(",")
+					}
+					if rule.ItemNotes[j] != "" {
+						r.sb.WriteString(" // " + rule.ItemNotes[j])
+					}
+					r.sb.WriteString(r.nl)
+				}
+				r.sb.WriteString(strings.Repeat(r.ind, level+2) + "]")
+				continue
+			}
 			r.sb.WriteString(RuleValueText(rule, r.on(r.st.QuoteNames)))
 		}
 		if r.on(r.st.TrailingComma) {
@@ -217,6 +240,8 @@ func (r *renderer) annotation(n *Node, level int) {
 			r.sb.WriteString(" - ")
 		}
 		r.sb.WriteString(n.Note)
+	} else if n.Dash && len(n.Rules) > 0 {
+		r.sb.WriteString(" -")
 	}
 	if ml != 0 {
 		r.sb.WriteString(" */")
